@@ -49,6 +49,11 @@ def states_and_ops(names):
                 elif op[k] == 'none':
                     D[n] = None
             yield A, D
+            # the order in which a dictionary names the parameters carries no meaning
+            if len(D) >= 2:
+                yield A, dict(reversed(list(D.items())))
+            if len(A) >= 2 and D:
+                yield dict(reversed(list(A.items()))), D
 
 
 def updated(A, D):
@@ -160,7 +165,7 @@ def run_all(rec, tag, funcs, names, one, native):
         if fail is None:
             return ('discharged', 'symbolic execution with recording stubs', '%d (abstract state, fix_parameters dictionary) pairs, every method, two successive evaluations each' % n)
         A, D, msg = fail
-        desc = 'state {%s} + fix_parameters({%s}): %s' % (', '.join(sorted(A)), ', '.join('%s: %s' % (k, 'None' if v is None else 'v') for k, v in sorted(D.items())), msg)
+        desc = 'state {%s} + fix_parameters({%s}): %s' % (', '.join(A), ', '.join('%s: %s' % (k, 'None' if v is None else 'v') for k, v in D.items()), msg)
         wit = native(A, D)
         if wit is None:
             return ('undecided', 'symbolic execution with recording stubs', desc + ' (not reproduced natively)')
@@ -181,10 +186,10 @@ def native_error_witness(A, D, names):
         real_of = dict(zip(names, full_names))
         try:
             r = real.ReducedErrorModel(getattr(real, cls)())
-            old = {real_of[n_]: 0.6 + 0.1 * k_ for k_, n_ in enumerate(sorted(A))}
+            old = {real_of[n_]: 0.6 + 0.1 * k_ for k_, n_ in enumerate(A)}           # in the order the dictionary names them
             if old:
                 r.fix_parameters(dict(old))
-            new = {real_of[n_]: (None if v_ is None else 1.1 + 0.1 * k_) for k_, (n_, v_) in enumerate(sorted(D.items()))}
+            new = {real_of[n_]: (None if v_ is None else 1.1 + 0.1 * k_) for k_, (n_, v_) in enumerate(D.items())}
             r.fix_parameters(dict(new))
             net = dict(old)
             for n_, v_ in new.items():
@@ -339,7 +344,8 @@ def native_mech_witness(A, D, names):
             return out, np.stack([full[n_] for n_ in self._req], axis=1)[:, np.newaxis, :]
     seqs = [[{'b': 0.5}], [{'a': 1.0, 'c': 0.3}, {'a': None}], [{'b': 0.5}, {'b': None}], [{'a': 1.0}, {'c': 2.0}, {'a': None, 'c': None}], [{'c': 0.2}, {'c': 0.7}],
             [{'a': 1.0}, {'a': None, 'b': 0.5}], [{'a': 1.0, 'b': 0.4}, {'a': None, 'c': 0.3}], [{'c': 0.2}, {'c': None, 'a': 1.1}],      # one call that releases and fixes (same count)
-            [{'c': 0.0}], [{'a': 0}, {'c': 0.5}], [{'b': 0.5}, {'b': 0.0}]]          # the value zero is a value like any other
+            [{'c': 0.0}], [{'a': 0}, {'c': 0.5}], [{'b': 0.5}, {'b': 0.0}],          # the value zero is a value like any other
+            [{'c': 0.3, 'a': 1.0}], [{'c': 0.3, 'b': 0.2, 'a': 1.0}], [{'b': 0.2}, {'c': 0.3, 'b': None, 'a': 1.0}]]      # dictionaries that name the parameters in another order than the model
     t = [0.5, 1.0, 2.0]
     for seq in seqs:
         for sens_first in (False, True):
@@ -472,7 +478,8 @@ def native_pop_witness():
     psi = rng.normal(size=(3, 2))
     # release: fixing to None restores the previous behaviour, whatever was done before
     for seq in ([{names[0]: 5.0}, {names[0]: None}], [{names[1]: 5.0, names[2]: 6.0}, {names[2]: None}], [{names[3]: 2.0}, {names[3]: 3.0}, {names[3]: None, names[0]: 1.0}],
-                [{names[0]: 0.0}], [{names[0]: 0}, {names[1]: -0.0}], [{names[1]: 2.0}, {names[1]: 0.0}]):          # the value zero is a value like any other (a population mean of 0)
+                [{names[0]: 0.0}], [{names[0]: 0}, {names[1]: -0.0}], [{names[1]: 2.0}, {names[1]: 0.0}],
+                [{names[2]: 6.0, names[1]: 5.0}], [{names[3]: 2.0, names[0]: 1.0, names[2]: 0.9}], [{names[3]: 2.0}, {names[2]: 0.9, names[3]: None, names[0]: 1.0}]):          # the value zero is a value like any other (a population mean of 0)
         r = real.ReducedPopulationModel(real.GaussianModel(n_dim=2))
         Af = {}
         for d_ in seq:
